@@ -1,5 +1,5 @@
 CONSTANTS Cap = 2 NPush = 3 NPop = 3 Batch = 1
-  PushTailAcq = TRUE PushHeadRel = TRUE PopHeadAcq = TRUE PopTailRel = TRUE
+  PushTailAcq = TRUE PushHeadRel = TRUE PopHeadAcq = TRUE PopTailRel = TRUE PushPublishLast = TRUE PopPublishLast = TRUE
 SPECIFICATION Spec
 INVARIANT NoDataRace
 INVARIANT FifoExactlyOnce
